@@ -515,7 +515,7 @@ func writeEvidence(id, tier string, seed int, spec *checkSpec, sums []*interp.Su
 			"harnesses":                     perH,
 			"queries_discharged":            map[string]any{"total": queries, "unsat": unsat, "sat": sat, "unknown": unknown, "assertion_checks_proved": assertsOK},
 			"solver_time_s":                 solverT,
-			"solver":                        "z3 4.8.12 (persistent z3 -in per worker)",
+			"solver":                        "z3 5.1.0 (z3-new; one persistent `-in` process per worker, push/pop), fallback z3 4.8.12",
 			"encoding_notes":                nl,
 			"outside_claim":                 spec.Outside,
 			"known_findings_reproduced":     kf,
